@@ -1,426 +1,468 @@
-(* C14 — MkdirAll, prepareTargetDir and Copy's loop: from the RootPath results (symlink-free
-   below dstRoot) to the targets of copy_rec. *)
-From Coq Require Import List Arith NArith Lia Bool ZifyN ZifyNat ZifyBool.
-From FS Require Import Sx Model.Path Model.Fs Model.RootPath Model.CopyFs Model.CopyFsSpec
-  Proofs.Lex Proofs.PathP Proofs.FsP Proofs.RootPathStrP Proofs.FsCopyFrameP Proofs.FsCopyInvP
-  Proofs.FsCopySafeP Proofs.FsCopyLinksP Proofs.FsCopySysP Proofs.CopyFsP Proofs.CopyRecP.
+(* C13 / C15 — Copy (prepareTargetDir, MkdirAll, copier.copy per source, wildcards,
+   fixCreatedParentDirs) against [overlay_all]. *)
+From Coq Require Import List NArith Bool Lia ZifyN ZifyNat ZifyBool.
+From FS Require Import Sx Model.Path Model.SymMode Model.Copier Model.CopySpec Proofs.Lex
+  Proofs.CopierP Proofs.CopyOpsP Proofs.CopyDentP Proofs.CopyLinkP Proofs.CopyNodeP Proofs.CopyMkdirP Proofs.CopyConflictP.
 Import ListNotations.
 Open Scope N_scope.
 Open Scope bool_scope.
 
-Local Opaque rfuel.
+Definition xerr_cls (x : xerr) : N :=
+  match x with XConflict c _ _ => c | XOther c => c | XScope => 99 end.
 
-(* ---- chains and the vocabulary of Model/RootPath.v ---- *)
-Lemma chain_plain_dir f : forall cs a e, chain f a cs e -> plain_dir f a cs = Some e.
+Lemma xerr_of_cls e : e = EScope \/ e = EOther -> xerr_cls (xerr_of e) = err_cls e.
+Proof. intros [->| ->]; reflexivity. Qed.
+
+Lemma s_resolve_wf : forall p n sn, wf_s n -> s_resolve n p = inl sn -> wf_s sn.
 Proof.
-  induction 1 as [d Hd|d x i cs e Hb Hi Hc IH].
-  - unfold plain_dir. cbn [plain_lookup]. unfold is_dir in Hd.
-    destruct (dir_of f d) as [[p es]|] eqn:E; [|discriminate]. cbn [l_ino]. unfold is_dir. rewrite E. reflexivity.
-  - unfold plain_dir in *. cbn [plain_lookup]. unfold dents in Hb.
-    destruct (dir_of f d) as [[p es]|] eqn:E; [|discriminate]. rewrite Hb.
-    unfold is_dir, dir_of in Hi. destruct (get f i) as [[[p0 es0|?|?|? ?] m]|] eqn:Eg; try discriminate.
-    destruct cs as [|y cs].
-    + inversion Hc; subst. cbn [is_nil l_ino]. unfold is_dir, dir_of. rewrite Eg. reflexivity.
-    + cbn [is_nil]. exact IH.
+  induction p as [|a p IH]; intros [nm ino d kids] sn Hwf; simpl.
+  - intro H; inversion H; subst; auto.
+  - destruct (is_dir d); [|discriminate]. destruct (find_kid a kids) as [k|] eqn:E; [|discriminate].
+    apply IH. apply wf_s_unfold in Hwf. destruct Hwf as (_ & _ & _ & Hall).
+    rewrite Forall_forall in Hall. apply Hall. eapply find_kid_in; eauto.
+Qed.
+Lemma s_resolve_err : forall p n e, s_resolve n p = inr e -> e = EScope \/ e = EOther.
+Proof.
+  induction p as [|a p IH]; intros [nm ino d kids] e; simpl; [discriminate|].
+  destruct (is_dir d).
+  - destruct (find_kid a kids); [apply IH|]. intro H; inversion H; auto.
+  - destruct (is_lnk d); intro H; inversion H; auto.
 Qed.
 
-Lemma plain_dir_chain f : forall cs a e, plain_dir f a cs = Some e -> chain f a cs e.
+Lemma s_resolve_cons multi sdof : forall p n sn, cons_s multi sdof n -> s_resolve n p = inl sn -> cons_s multi sdof sn.
 Proof.
-  induction cs as [|x cs IH]; intros a e H; unfold plain_dir in H; cbn [plain_lookup] in H.
-  - destruct (dir_of f a) as [[p es]|] eqn:E; [|discriminate]. cbn [l_ino] in H.
-    destruct (is_dir f a) eqn:Ed; inversion H; subst. constructor; auto.
-  - destruct (dir_of f a) as [[p es]|] eqn:E; [|discriminate].
-    destruct (blookup x es) as [i|] eqn:Eb.
-    + assert (Hb : blookup x (dents f a) = Some i) by (unfold dents; rewrite E; auto).
-      destruct (get f i) as [[[p0 es0|dd|t|ty rd] m]|] eqn:Eg.
-      * assert (Hi : is_dir f i = true) by (unfold is_dir, dir_of; rewrite Eg; reflexivity).
-        destruct cs as [|y cs].
-        -- cbn [is_nil l_ino] in H. rewrite Hi in H. inversion H; subst. econstructor; eauto; constructor; auto.
-        -- cbn [is_nil] in H. econstructor; eauto.
-      * destruct cs as [|y cs]; cbn [is_nil l_ino] in H.
-        -- unfold is_dir, dir_of in H. rewrite Eg in H. discriminate.
-        -- cbn [plain_lookup] in H. unfold dir_of in H. rewrite Eg in H. discriminate.
-      * rewrite andb_false_r in H. discriminate.
-      * destruct cs as [|y cs]; cbn [is_nil l_ino] in H.
-        -- unfold is_dir, dir_of in H. rewrite Eg in H. discriminate.
-        -- cbn [plain_lookup] in H. unfold dir_of in H. rewrite Eg in H. discriminate.
-      * destruct cs as [|y cs]; cbn [is_nil l_ino] in H.
-        -- unfold is_dir, dir_of in H. rewrite Eg in H. discriminate.
-        -- cbn [plain_lookup] in H. unfold dir_of in H. rewrite Eg in H. discriminate.
-    + destruct (is_nil cs); cbn [l_ino] in H; discriminate.
+  induction p as [|a p IH]; intros [nm ino d kids] sn Hc; simpl.
+  - intro H; inversion H; subst; auto.
+  - destruct (is_dir d); [|discriminate]. destruct (find_kid a kids) as [k|] eqn:E; [|discriminate].
+    apply IH. apply cons_s_unfold in Hc. destruct Hc as (_ & Hall).
+    rewrite Forall_forall in Hall. apply Hall. eapply find_kid_in; eauto.
 Qed.
 
-(* a successful lookup along a symlink-free path that ends on a directory is a chain *)
-Lemma link_free_walk_chain f : forall fuel cs a rt fl n r i,
-  link_free f a cs = true -> Forall nm cs -> is_dir f a = true ->
-  walk fuel f rt a cs fl n = inl r -> l_ino r = Some i -> is_dir f i = true -> chain f a cs i.
+Lemma first_conflict_is_conflict V : forall n p c, first_conflict V p n = Some c ->
+  exists cls q e, c = XConflict cls q (Some e).
 Proof.
-  induction fuel as [|fuel IH]; intros cs a rt fl n r i Hlf Hcs Ha H Hi Hd; [discriminate|].
-  cbn [walk] in H. destruct (dir_of f a) as [[par ents]|] eqn:Ed; [|discriminate].
-  destruct cs as [|x rest].
-  - inversion H; subst. simpl in Hi. inversion Hi; subst. constructor; auto.
-  - inversion Hcs as [|? ? Hx Hrest]; subst. destruct Hx as [(N1 & N2 & N3) _].
-    apply bytes_eqb_neq in N2, N3. rewrite N2, N3 in H.
-    cbn [link_free] in Hlf. rewrite Ed in Hlf.
-    destruct (blookup x ents) as [i0|] eqn:Eb.
-    + assert (Hb : blookup x (dents f a) = Some i0) by (unfold dents; rewrite Ed; auto).
-      destruct (get f i0) as [[[p0 es0|dd|t|ty rd] m]|] eqn:Eg; try discriminate.
-      * assert (Hi0 : is_dir f i0 = true) by (unfold is_dir, dir_of; rewrite Eg; reflexivity).
-        destruct rest as [|y rest].
-        -- simpl in H. inversion H; subst. simpl in Hi. inversion Hi; subst. econstructor; eauto. constructor; auto.
-        -- cbn [is_nil] in H. econstructor; eauto.
-      * destruct rest as [|y rest]; cbn [is_nil] in H.
-        -- inversion H; subst. simpl in Hi. inversion Hi; subst. unfold is_dir, dir_of in Hd. rewrite Eg in Hd. discriminate.
-        -- destruct fuel; [discriminate|]. cbn [walk] in H. unfold dir_of in H. rewrite Eg in H. discriminate.
-      * destruct rest as [|y rest]; cbn [is_nil] in H.
-        -- inversion H; subst. simpl in Hi. inversion Hi; subst. unfold is_dir, dir_of in Hd. rewrite Eg in Hd. discriminate.
-        -- destruct fuel; [discriminate|]. cbn [walk] in H. unfold dir_of in H. rewrite Eg in H. discriminate.
-      * destruct rest as [|y rest]; cbn [is_nil] in H.
-        -- inversion H; subst. simpl in Hi. inversion Hi; subst. unfold is_dir, dir_of in Hd. rewrite Eg in Hd. discriminate.
-        -- destruct fuel; [discriminate|]. cbn [walk] in H. unfold dir_of in H. rewrite Eg in H. discriminate.
-    + destruct (is_nil rest); [|discriminate]. inversion H; subst. simpl in Hi. discriminate.
-Qed.
-
-(* walking a chain first *)
-Lemma walk_chain_prefix f : forall p a m, chain f a p m -> Forall nm p -> forall rest, rest <> [] ->
-  forall fuel rt fl n, walk (length p + fuel) f rt a (p ++ rest) fl n = walk fuel f rt m rest fl n.
-Proof.
-  induction 1 as [d Hd|d x i cs e Hb Hi Hc IH]; intros Hp rest Hne fuel rt fl n; [reflexivity|].
-  inversion Hp as [|? ? Hx Hcs]; subst. destruct Hx as [(N1 & N2 & N3) _].
-  apply bytes_eqb_neq in N2, N3.
-  simpl length. simpl app. cbn [plus walk]. unfold dents in Hb.
-  destruct (dir_of f d) as [[par ents]|] eqn:Ed; [|discriminate]. rewrite N2, N3, Hb.
-  unfold is_dir, dir_of in Hi. destruct (get f i) as [[[p0 es0|?|?|? ?] m]|] eqn:Eg; try discriminate.
-  replace (is_nil (cs ++ rest)) with false by (destruct cs; [destruct rest; [congruence|reflexivity]|reflexivity]).
-  apply IH; auto.
-Qed.
-
-(* a chain walked with enough fuel reaches its end *)
-Lemma walk_chain_full f : forall p a m, chain f a p m -> Forall nm p -> p <> [] ->
-  forall fuel rt fl n, (length p <= fuel)%nat ->
-  exists r, walk fuel f rt a p fl n = inl r /\ l_ino r = Some m.
-Proof.
-  induction 1 as [d Hd|d x i cs e Hb Hi Hc IH]; intros Hp Hne fuel rt fl n Hf; [congruence|].
-  inversion Hp as [|? ? Hx Hcs]; subst. destruct Hx as [(N1 & N2 & N3) _].
-  apply bytes_eqb_neq in N2, N3.
-  destruct fuel as [|fuel]; [simpl in Hf; lia|]. cbn [walk]. unfold dents in Hb.
-  destruct (dir_of f d) as [[par ents]|] eqn:Ed; [|discriminate]. rewrite N2, N3, Hb.
-  unfold is_dir, dir_of in Hi. destruct (get f i) as [[[p0 es0|?|?|? ?] m]|] eqn:Eg; try discriminate.
-  destruct cs as [|y cs].
-  - inversion Hc; subst. cbn [is_nil]. eexists. split; reflexivity.
-  - cbn [is_nil]. apply IH; auto; [discriminate|simpl in *; lia].
-Qed.
-
-Lemma rfuel_S : exists k, rfuel = S k.
-Proof. Local Transparent rfuel. unfold rfuel. simpl. eexists. reflexivity. Local Opaque rfuel. Qed.
-
-(* ---- strings: the parent path MkdirAll recurses on ---- *)
-Lemma strip_render l x : Forall nm (l ++ [x]) -> strip_trailing_seps (render (l ++ [x])) = render (l ++ [x]).
-Proof.
-  intros H. apply Forall_app in H. destruct H as [_ Hx]. inversion Hx as [|? ? Hx1 _]; subst.
-  destruct (exists_last (nm_nonempty _ Hx1)) as (x' & a & ->).
-  assert (Ha : a <> sep).
-  { intros ->. destruct Hx1 as [_ Hns]. apply Hns. apply in_or_app. right. left. reflexivity. }
-  unfold render. destruct l as [|y l].
-  - simpl joinc. change (sep :: x' ++ [a]) with ((sep :: x') ++ [a]). apply strip_trailing_seps_id; auto.
-  - rewrite joinc_snoc by discriminate.
-    replace (sep :: joinc (y :: l) ++ sep :: x' ++ [a]) with ((sep :: joinc (y :: l) ++ sep :: x') ++ [a]).
-    + apply strip_trailing_seps_id; auto.
-    + simpl. rewrite <- app_assoc. reflexivity.
-Qed.
-
-Lemma mk_parent_render l x : Forall nm (l ++ [x]) ->
-  mk_parent (render (l ++ [x])) = match l with [] => None | _ => Some (render l) end.
-Proof.
-  intros H. unfold mk_parent. rewrite strip_render by auto. unfold render. cbn [split_last].
-  rewrite split_last_joinc by (apply Forall_nm_nosep; auto).
-  destruct l as [|y l].
-  - rewrite N.eqb_refl. reflexivity.
-  - cbn [length]. replace (Nat.ltb 1 (S (length (joinc (y :: l) ++ [sep])))) with true.
-    + change (sep :: joinc (y :: l) ++ [sep]) with ((sep :: joinc (y :: l)) ++ [sep]). rewrite removelast_last. reflexivity.
-    + symmetry. apply Nat.ltb_lt. rewrite app_length. simpl. lia.
+  induction n as [nm ino sd kids IH] using snode_ind2. intros p c. cbn [first_conflict].
+  destruct (V p) as [e|]; [|discriminate].
+  destruct (_ && _); [intro H; inversion H; eauto|]. destruct (_ && _); [intro H; inversion H; eauto|].
+  destruct (is_dir sd); [|discriminate].
+  induction kids as [|k r IHr]; [discriminate|]. inversion IH as [|? ? Hk Hr]; subst.
+  destruct (first_conflict V (p ++ [sname k]) k) eqn:E; auto. intro H; inversion H; subst. eapply Hk; eauto.
 Qed.
 
 Section Top.
-  Variables (c : ctx) (f0 : fs) (dr : N) (dcs : list bytes).
-  Notation Ctx := (Ctx c f0 dr dcs).
-  Notation tpath := (tpath dcs).
-  Notation SS := (SS f0 dr).
-  Notation Tgt := (Tgt c f0 dr dcs).
-  Notation names_ss := (names_ss f0 dr).
-  Notation stays := (stays c f0 dr dcs).
-  Notation stays_ok := (stays_ok c f0 dr dcs).
-  Notation mstep := (mstep c f0 dr dcs).
-  Notation lok := (lok f0 dr dcs).
-  Notation keeps_new := (keeps_new dr (f_next f0)).
-  Notation gnew := (gnew dr (f_next f0)).
-  Let rt := c_root c.
-  Let b := f_next f0.
+  Variable o : copts.
+  Variable selected : list (list N) -> bool.
+  Hypothesis Hsel : forall p, selected p = true.
+  Variable sroot : snode.
+  Hypothesis Hwf : wf_s sroot.
+  Hypothesis Hrootdir : is_dir (sdent sroot) = true.
+  Variable sdof : N -> dent.
+  Hypothesis Hcons : cons_s (multi_of sroot) sdof sroot.
+  Variable S : Prop.     (* exact-partition mode (CopyLinkP.v) *)
+  Notation Inv := (Inv o).
+  Notation touch := (touch o).
+  Notation G := (G o).
+  Notation multi := (multi_of sroot).
 
-  (* ---- stat of the root and of symlink-free paths below it ---- *)
-  Lemma resolve_root f fl : Ctx f -> exists r, resolve c f (render dcs) fl = inl r /\ l_ino r = Some dr.
+  Lemma G_mk X X1 cr0 cr : G X cr0 -> mk_new o cr X1 -> mk_old cr X X1 -> G X1 (cr0 ++ cr).
   Proof.
-    intros C. pose proof (cx_root _ _ _ _ f C) as Hc. fold rt in Hc.
-    pose proof (cx_dcs _ _ _ _ f C) as Hd. pose proof (cx_dnul _ _ _ _ f C) as Hn.
-    pose proof (cx_len _ _ _ _ f C) as Hl.
-    destruct dcs as [|y l] eqn:E.
-    - inversion Hc; subst. destruct rfuel_S as [k Ek].
-      unfold resolve, render. cbn [joinc has_nul existsb ends_with_sep rev app is_abs pcs comps filter nonempty].
-      change (N.eqb 0 sep) with false. cbn [orb]. rewrite N.eqb_refl. cbn [filter nonempty orb].
-      rewrite orb_true_r. rewrite Ek. cbn [walk]. unfold is_dir in H. fold rt.
-      destruct (dir_of f rt) as [[par ents]|] eqn:Ed; [|discriminate].
-      cbn [l_ino]. unfold is_dir. rewrite Ed. eexists. split; reflexivity.
-    - rewrite <- E in *. rewrite resolve_render by (auto; rewrite E; discriminate).
-      apply walk_chain_full; auto; [rewrite E; discriminate|lia].
+    intros Hg Hn Ho q. unfold Gp. destruct (X1 q) as [e|] eqn:E; auto. split.
+    - intro Hm. apply in_or_app. destruct (Ho q e E) as [Hin|(e0 & A1 & A2 & A3 & A4)]; auto.
+      left. specialize (Hg q). rewrite A1 in Hg. apply Hg. congruence.
+    - intro Hin. assert (Hc : In q cr \/ (~ In q cr /\ In q cr0)).
+      { destruct (in_dec (list_eq_dec (list_eq_dec N.eq_dec)) q cr); auto. apply in_app_or in Hin. tauto. }
+      destruct Hc as [Hc|[Hnc Hc]].
+      + destruct (Hn q Hc) as (e' & B1 & B2 & B3 & B4). rewrite E in B1. inversion B1; subst. auto.
+      + destruct (Ho q e E) as [Hin'|(e0 & A1 & A2 & A3 & A4)]; [contradiction|].
+        specialize (Hg q). rewrite A1 in Hg. destruct Hg as [_ Hg]. destruct (Hg Hc) as [K1 K2].
+        rewrite <- A2, <- A3. auto.
   Qed.
 
-  Lemma stat_root f : Ctx f -> exists n, snd (sys_stat c f (render dcs)) = RStat dr n /\ kind_is_dir n = true.
+  Lemma make_dirs_mono r : forall pre V V1, make_dirs o pre r V = inl V1 ->
+    forall q, x_isdir (V q) = true -> x_isdir (V1 q) = true.
   Proof.
-    intros C. destruct (resolve_root f true C) as (r & E & Hi).
-    unfold sys_stat, resolve_ino. rewrite E, Hi.
-    pose proof (chain_end_dir _ _ _ _ (cx_root _ _ _ _ f C)) as Hd. unfold is_dir, dir_of in Hd.
-    destruct (get f dr) as [[[p es|?|?|? ?] m]|] eqn:Eg; try discriminate.
-    eexists. split; [reflexivity|reflexivity].
+    induction r as [|c r IH]; intros pre V V1.
+    - rewrite make_dirs_nil. destruct (V pre) as [e|]; [|discriminate].
+      destruct (negb (is_dir (x_d e))); [discriminate|]. intro H; inversion H; auto.
+    - rewrite make_dirs_cons. destruct (V pre) as [e|]; [|discriminate].
+      destruct (negb (is_dir (x_d e))); [discriminate|].
+      destruct (V (pre ++ [c])) eqn:En; intros H q Hq.
+      + eapply IH; eauto.
+      + eapply IH; eauto. destruct (path_dec q (pre ++ [c])) as [->|Hn].
+        * rewrite xupd_same. unfold x_isdir. apply made_dir_isdir.
+        * rewrite xupd_other, touch_isdir; auto.
   Qed.
 
-  Lemma stat_dir_chain f cs i n : Ctx f -> Forall nm cs -> Forall nonul cs -> link_free f dr cs = true ->
-    snd (sys_stat c f (render (dcs ++ cs))) = RStat i n -> kind_is_dir n = true -> chain f dr cs i.
+  Lemma res_root_dir ms sn L tp X : x_isdir (X []) = true -> (L = [] -> is_dir (sdent sn) = true) ->
+    x_isdir (res o ms multi sn L tp X []) = true.
   Proof.
-    intros C Hcs Hnul Hlf H Hk.
-    pose proof (cx_root _ _ _ _ f C) as Hc. fold rt in Hc.
-    pose proof (cx_dcs _ _ _ _ f C) as Hd. pose proof (cx_dnul _ _ _ _ f C) as Hn.
-    pose proof (cx_len _ _ _ _ f C) as Hl.
-    destruct cs as [|x cs].
-    - rewrite app_nil_r in H. destruct (stat_root f C) as (n' & E & _). rewrite E in H. inversion H; subst.
-      constructor. eapply chain_end_dir; eauto.
-    - unfold sys_stat, resolve_ino in H.
-      rewrite resolve_render in H; [|apply Forall_app; auto|apply Forall_app; auto|destruct dcs; discriminate].
-      destruct (walk rfuel f (c_root c) (c_root c) (dcs ++ x :: cs) true 0) as [r|e] eqn:E; [|discriminate].
-      destruct (l_ino r) as [j|] eqn:Ej; [|discriminate].
-      destruct (get f j) as [nn|] eqn:Eg; [|discriminate]. cbn [snd] in H. inversion H; subst j nn.
-      replace rfuel with (length dcs + (rfuel - length dcs))%nat in E by lia.
-      rewrite (walk_chain_prefix f dcs rt dr Hc Hd (x :: cs) ltac:(discriminate)) in E.
-      eapply link_free_walk_chain; eauto.
-      + eapply chain_end_dir; eauto.
-      + unfold is_dir, dir_of. rewrite Eg. unfold kind_is_dir in Hk. destruct n as [[? ?|?|?|? ?] ?]; simpl in *; auto; discriminate.
+    intros HX HL. destruct (path_snoc_cases L) as [->|(P & a & ->)].
+    - unfold res. rewrite (HL eq_refl), HX. cbn [andb]. rewrite ov_at_T. unfold copied.
+      unfold x_isdir in HX. destruct (X []) as [e|]; [|discriminate]. rewrite (HL eq_refl), HX. cbn [andb].
+      destruct tp; unfold x_isdir; cbn [x_d]; auto.
+      rewrite <- HX. apply is_dir_ftype. rewrite ftype_set_xattrs, ftype_set_mtime, ftype_set_perm. auto.
+    - unfold res. rewrite parent_snoc.
+      assert (Hu : strip_prefix (P ++ [a]) [] = None).
+      { apply strip_prefix_none. intros r E. symmetry in E. apply app_eq_nil in E as [E _]. revert E. apply snoc_ne_nil. }
+      destruct (_ && _); [|rewrite touch_isdir]; rewrite ov_unrel; auto.
   Qed.
 
-  (* ---- MkdirAll ---- *)
-  (* a directory MkdirAll created: whatever stands at that path later was put there by the copier *)
-  Definition created_ok (f : fs) (p : bytes) : Prop :=
-    exists cs x, p = tpath cs x /\ Forall nm cs /\ Forall nonul cs /\ nm x /\ nonul x /\ gnew f cs x.
+  (* ---- one source ---- *)
+  Definition PCall (im : list (N * (list (list N) * N))) : Prop := forall T, PC T im.
 
-  Lemma created_ok_keeps f f' p : keeps_new f f' -> created_ok f p -> created_ok f' p.
-  Proof. intros K (cs & x & E & H1 & H2 & H3 & H4 & G). exists cs, x. do 5 (split; [assumption|]). apply K. exact G. Qed.
+  Definition one_ok (ms : option (list bitcmd)) (st : cstate) (cr0 : list (list (list N))) (res : xres + xerr)
+             (out : cstate * option err * list (list (list N))) : Prop :=
+    match res with
+    | inl r => exists st' cr, out = (st', None, cr) /\ Inv (c_fs st') (xr_view r) /\ x_isdir (xr_view r []) = true /\
+                 G (xr_view r) (cr0 ++ cr) /\ c_notifs st' = rev (xr_notifs r) ++ c_notifs st /\
+                 Lk o ms multi sdof S (c_fs st') (xr_view r) (c_imap st')
+    | inr xe =>
+      exists st' e cr, out = (st', Some e, cr) /\ err_cls e = xerr_cls xe /\
+        match xe with
+        | XConflict _ p bef => exists X', Inv (c_fs st') X' /\ X' p = bef /\ bef <> None /\ G X' (cr0 ++ cr) /\
+                                          Lk o ms multi sdof S (c_fs st') X' (c_imap st')
+        | _ => True
+        end
+    end.
 
-  Lemma stays_below d d1 q s s' : chain (s_fs s) d q d1 -> stays d1 s s' -> stays d s s'.
-  Proof. intros Hq (C & A & L & K). split; auto. split; auto. eapply above_mono; eauto. Qed.
-
-  Lemma stays_keeps d s s' : stays d s s' -> keeps_new (s_fs s) (s_fs s').
-  Proof. intros (_ & _ & _ & K). exact K. Qed.
-
-  Lemma chown_fixed_spec s s' r cs d x i o : Tgt (s_fs s) cs d x -> names_ss (s_fs s) d x i ->
-    chown_fixed c o (tpath cs x) s = (s', r) -> mstep s s'.
+  Lemma copy_one_spec ms dst src st X cr0 sn :
+    Inv (c_fs st) X -> Lk o ms multi sdof S (c_fs st) X (c_imap st) -> (S -> PCall (c_imap st)) ->
+    x_isdir (X []) = true -> G X cr0 -> s_resolve sroot (rooted src) = inl sn ->
+    one_ok ms st cr0 (overlay_one o ms multi sn src dst X) (copy_one o selected sroot ms dst src st).
   Proof.
-    intros T Hn H. unfold chown_fixed in H. destruct (o_chown o) as [[u g]|].
-    - rewrite bind_run, sys_run in H. cbn [fst snd] in H.
-      destruct (sys_lchown c (s_fs s) (tpath cs x) u g) as [f1 r1] eqn:E1. cbn [fst snd] in H.
-      pose proof (t_lchown c f0 dr dcs _ cs d x i _ _ f1 r1 T Hn E1) as M1.
-      rewrite expect_ok_run in H. injection H as <- <-. apply mstep_mk; auto.
-    - cbn [ret] in H. injection H as <- <-. apply mstep_refl. apply T.
+    intros I L0 Hpc Hroot Hg Hres. unfold copy_one, overlay_one. rewrite Hres.
+    rewrite (root_path_spec o _ _ (clean dst) I).
+    destruct (root_path (c_fs st) (clean dst)) as [D|e] eqn:ERP; cbn [map_res].
+    2:{ pose proof (root_path_err _ _ _ ERP) as He. unfold one_ok.
+        exists st, e, []. split; auto. split; [symmetry; apply xerr_of_cls; auto|].
+        destruct He as [-> | ->]; exact Logic.I. }
+    pose proof (root_path_not_lnk o _ _ _ _ I Hroot ERP) as Hnl. unfold notlnk in Hnl.
+    pose proof (inv_lstat _ _ _ D I) as HL.
+    assert (Hwfn : wf_s sn) by (eapply s_resolve_wf; eauto).
+    assert (Hcsn : cons_s multi sdof sn) by (eapply s_resolve_cons; eauto).
+    assert (Elnk : match lstat (c_fs st) D with Some d => is_lnk d | None => false end = false).
+    { destruct (lstat (c_fs st) D); auto. }
+    rewrite Elnk.
+    set (L := landing o sn src D X).
+    assert (EL : (if (negb (o_dircontents o) && is_dir (sdent sn) && match lstat (c_fs st) D with Some _ => true | None => false end)
+                     || (negb (is_dir (sdent sn)) && match lstat (c_fs st) D with Some d => is_dir d | None => false end)
+                  then join_base D src else D) = L).
+    { unfold L, landing, join_base, x_exists, x_isdir.
+      destruct (lstat (c_fs st) D) as [d|], (X D) as [e|]; try contradiction; auto.
+      rewrite (dm_is_dir _ _ _ HL). auto. }
+    rewrite EL.
+    assert (Eex : match lstat (c_fs st) D with Some _ => true | None => false end = x_exists (X D)).
+    { unfold x_exists. destruct (lstat (c_fs st) D), (X D); try contradiction; auto. }
+    rewrite Eex.
+    set (target := if o_dircontents o && is_dir (sdent sn) && negb (x_exists (X D)) then L else parent L).
+    pose proof (mkdir_all_spec o ms multi sdof S target st X I L0 Hroot) as HM.
+    destruct (make_dirs o [] target X) as [X1|xe] eqn:EMD.
+    2:{ destruct HM as (st1 & e & E1 & E2 & E3 & E4 & _). rewrite E1. unfold one_ok.
+        exists st1, e, []. split; auto. subst xe. split; [symmetry; apply xerr_of_cls; auto|].
+        destruct E3 as [-> | ->]; exact Logic.I. }
+    destruct HM as (st1 & cr & E1 & I1 & R1 & N1 & O1 & L1). rewrite E1.
+    pose proof (make_dirs_final_dir o target [] X X1 EMD) as Hfd. simpl in Hfd.
+    pose proof (make_dirs_mono _ _ _ _ EMD [] Hroot) as Hroot1.
+    pose proof (G_mk _ _ _ _ Hg N1 O1) as Hg1.
+    destruct R1 as (R1a & R1b & R1c).
+    (* the landing path is usable *)
+    assert (HLdir : L = [] -> is_dir (sdent sn) = true).
+    { intro HL0. unfold L, landing in HL0.
+      destruct ((negb (o_dircontents o) && is_dir (sdent sn) && x_exists (X D)) || (negb (is_dir (sdent sn)) && x_isdir (X D))) eqn:Ec.
+      - destruct (rev (rooted src)) as [|b t] eqn:Er; [|exfalso; revert HL0; apply snoc_ne_nil].
+        assert (rooted src = []) as Hr0 by (rewrite <- (rev_involutive (rooted src)), Er; auto).
+        rewrite Hr0 in Hres. destruct sroot; simpl in Hres. inversion Hres; subst. auto.
+      - subst D. rewrite Hroot in Ec. destruct (is_dir (sdent sn)); auto.
+        rewrite orb_false_iff in Ec. destruct Ec as [_ Ec]. discriminate. }
+    assert (Htok : tok X1 L (sdent sn)).
+    { destruct (path_snoc_cases L) as [HL0|(P & a & HLs)].
+      - left. rewrite HL0 in *. auto.
+      - right. exists P, a. split; auto. unfold target in Hfd. rewrite HLs in Hfd.
+        destruct (o_dircontents o && is_dir (sdent sn) && negb (x_exists (X D))).
+        + apply (all_prefix_dirs o _ _ [] [a] P I1); [discriminate|]. simpl.
+          unfold x_isdir in Hfd. destruct (X1 (P ++ [a])); [discriminate|discriminate].
+        + rewrite parent_snoc in Hfd. auto. }
+    destruct (if o_replace o then None else first_conflict X1 L sn) as [c|] eqn:EC.
+    - (* conflict *)
+      destruct (o_replace o) eqn:Er; [discriminate|].
+      destruct (first_conflict_is_conflict _ _ _ _ EC) as (cls & q & be & ->).
+      assert (Hpc1 : S -> PC L (c_imap st1)) by (intro HS; rewrite R1a; apply Hpc; auto).
+      destruct (copy_node_conflict o ms multi selected Hsel sdof S sn Hwfn Hcsn [] L false st1 X1 cls q (Some be) I1 L1 Hpc1 Htok Er EC)
+        as (st' & e & X' & F1 & F2 & F3 & F4 & F5 & F6 & F7).
+      rewrite F1. unfold one_ok.
+      exists st', e, cr. split; [reflexivity|]. split; [auto|]. exists X'. split; [auto|]. split; [auto|]. split; auto.
+    - (* success *)
+      assert (Hpc1 : S -> PC L (c_imap st1)) by (intro HS; rewrite R1a; apply Hpc; auto).
+      destruct (copy_node_ok o ms multi selected Hsel sdof S sn Hwfn Hcsn [] L false st1 X1 I1 L1 Hpc1 Htok)
+        as (st' & F1 & F2 & FL & FM & F3).
+      { intros Er. rewrite Er in EC. auto. }
+      rewrite F1. unfold one_ok. cbn [negb xr_view xr_notifs] in *.
+      assert (Eview : forall p, match L with
+                                | [] => overlay_at o ms multi sn L X1
+                                | _ :: _ => if is_dir (sdent sn) && x_isdir (X1 L) then overlay_at o ms multi sn L X1
+                                            else touch (parent L) (overlay_at o ms multi sn L X1)
+                                end p = res o ms multi sn L true X1 p).
+      { intro p. unfold res. destruct L eqn:EL0; auto. rewrite (HLdir eq_refl), Hroot1. auto. }
+      exists st', cr. split; [reflexivity|]. split; [eapply Inv_ext; eauto|]. split; [|split; [|split]].
+      + rewrite Eview. apply res_root_dir; auto.
+      + eapply G_ext; [exact Eview|]. apply G_res; auto.
+      + rewrite F3. congruence.
+      + eapply Lk_ext; [exact Eview|exact FL].
+  Qed.
+  (* ---- all sources ---- *)
+  (* several sources are handled only for sources without link groups: then nothing is ever
+     recorded in copier.inodes *)
+  Lemma PCall_nil : PCall [].
+  Proof. intros T s l i H. discriminate. Qed.
+  Lemma PCall_nolinks ms fs X im : (forall i, multi i = false) -> Lk o ms multi sdof S fs X im -> PCall im.
+  Proof.
+    intros Hn L T s l i H. destruct (lk_rec _ _ _ _ _ _ _ _ L _ _ _ H) as (_ & Hm & _). rewrite Hn in Hm. discriminate.
   Qed.
 
-  Lemma utimes_opt_spec s s' r cs d x i tm : Tgt (s_fs s) cs d x -> names_ss (s_fs s) d x i ->
-    utimes_opt c (tpath cs x) tm s = (s', r) -> mstep s s'.
+  Lemma copy_srcs_spec ms dst : forall srcs st X cr0,
+    (S -> (forall i, multi i = false) \/ (length srcs <= 1)%nat) ->
+    Inv (c_fs st) X -> Lk o ms multi sdof S (c_fs st) X (c_imap st) -> (S -> PCall (c_imap st)) ->
+    x_isdir (X []) = true -> G X cr0 ->
+    one_ok ms st cr0 (overlay_srcs o sroot ms dst srcs X) (copy_srcs o selected sroot ms dst srcs st).
   Proof.
-    intros T Hn H. unfold utimes_opt in H. destruct tm as [t|].
-    - rewrite bind_run, sys_run in H. cbn [fst snd] in H.
-      destruct (sys_utimens c (s_fs s) (tpath cs x) t) as [f1 r1] eqn:E1. cbn [fst snd] in H.
-      pose proof (t_utimens c f0 dr dcs _ cs d x i _ f1 r1 T Hn E1) as M1.
-      rewrite expect_ok_run in H. injection H as <- <-. apply mstep_mk; auto.
-    - cbn [ret] in H. injection H as <- <-. apply mstep_refl. apply T.
+    induction srcs as [|s r IH]; intros st X cr0 Hmode I L0 Hpc Hroot Hg.
+    - simpl. exists st, []. rewrite app_nil_r. spl; auto.
+    - cbn [overlay_srcs copy_srcs].
+      destruct (s_resolve sroot (rooted s)) as [sn|e] eqn:Eres.
+      + pose proof (copy_one_spec ms dst s st X cr0 sn I L0 Hpc Hroot Hg Eres) as H1.
+        destruct (overlay_one o ms multi sn s dst X) as [r1|xe].
+        * destruct H1 as (st1 & cr1 & E1 & I1 & Hr1 & G1 & N1 & L1). rewrite E1.
+          assert (Hrest : S -> r = [] \/ PCall (c_imap st1)).
+          { intro HS. destruct (Hmode HS) as [Hn|Hlen]; [right; eapply PCall_nolinks; eauto|].
+            left. destruct r; auto. simpl in Hlen. lia. }
+          destruct r as [|s2 r2].
+          -- simpl. exists st1, (cr1 ++ []). cbn [xr_view xr_notifs]. rewrite !app_nil_r. spl; auto.
+          -- assert (Hpc1 : S -> PCall (c_imap st1)).
+             { intro HS. destruct (Hrest HS) as [H|H]; [discriminate|auto]. }
+             assert (Hmode' : S -> (forall i, multi i = false) \/ (length (s2 :: r2) <= 1)%nat).
+             { intro HS. destruct (Hmode HS) as [Hn|Hlen]; auto. simpl in Hlen. lia. }
+             specialize (IH st1 (xr_view r1) (cr0 ++ cr1) Hmode' I1 L1 Hpc1 Hr1 G1).
+             destruct (overlay_srcs o sroot ms dst (s2 :: r2) (xr_view r1)) as [r2'|xe].
+             ++ destruct IH as (st2 & cr2 & E2 & I2 & Hr2 & G2 & N2 & L2). rewrite E2.
+                exists st2, (cr1 ++ cr2). cbn [xr_view xr_notifs]. rewrite app_assoc.
+                split; auto. split; auto. split; auto. split; auto.
+                split; [rewrite N2, N1, rev_app_distr, app_assoc; auto|auto].
+             ++ destruct IH as (st2 & e & cr2 & E2 & C2 & K2). rewrite E2.
+                exists st2, e, (cr1 ++ cr2). split; auto. split; auto.
+                destruct xe; auto. rewrite app_assoc. auto.
+        * destruct H1 as (st1 & e & cr1 & E1 & C1 & K1). rewrite E1. exists st1, e, cr1. auto.
+      + unfold copy_one. rewrite Eres. pose proof (s_resolve_err _ _ _ Eres) as He.
+        destruct He as [-> | ->]; exists st; eexists; exists []; spl; auto.
   Qed.
 
-  Lemma link_free_removelast f : forall cs d x, link_free f d (cs ++ [x]) = true -> link_free f d cs = true.
+  (* ---- fixCreatedParentDirs ---- *)
+  Definition strict (fs : fsys) (X : xview) : Prop :=
+    forall q i e, names fs q = Some i -> X q = Some e -> x_known e = true -> d_mtime (inodes fs i) = d_mtime (x_d e).
+
+  Definition mk_timed (fs : fsys) (X : xview) : Prop :=
+    forall q i e t, names fs q = Some i -> X q = Some e -> x_mk e = true -> o_utime o = Some t -> d_mtime (inodes fs i) = t.
+
+  Lemma fix_created_ok ms cr st X : Inv (c_fs st) X -> Lk o ms multi sdof S (c_fs st) X (c_imap st) -> G X cr ->
+    Inv (c_fs (fix_created o cr st)) X /\ strict (c_fs (fix_created o cr st)) X /\ same_rest (fix_created o cr st) st /\
+    mk_timed (c_fs (fix_created o cr st)) X /\
+    Lk o ms multi sdof S (c_fs (fix_created o cr st)) X (c_imap (fix_created o cr st)).
   Proof.
-    induction cs as [|y cs IH]; intros d x H; [reflexivity|].
-    simpl app in H. cbn [link_free] in *. destruct (dir_of f d) as [[p es]|]; auto.
-    destruct (blookup y es) as [i|]; auto. destruct (get f i) as [[[? ?|?|?|? ?] ?]|]; eauto.
+    intros I L0 Hg. unfold fix_created. destruct (o_utime o) as [t|] eqn:Eu.
+    - set (step := fun s d => match upd_path d (set_mtime t) (c_fs s) with Some f => with_fs s f | None => s end).
+      assert (Gen : forall todo st0 (P : list (list N) -> Prop),
+        Inv (c_fs st0) X -> Lk o ms multi sdof S (c_fs st0) X (c_imap st0) -> (forall q, In q todo -> In q cr) ->
+        (forall q i, P q -> names (c_fs st0) q = Some i -> d_mtime (inodes (c_fs st0) i) = t) ->
+        Inv (c_fs (fold_left step todo st0)) X /\
+        (forall q i, P q \/ In q todo -> names (c_fs (fold_left step todo st0)) q = Some i ->
+                     d_mtime (inodes (c_fs (fold_left step todo st0)) i) = t) /\
+        same_rest (fold_left step todo st0) st0 /\
+        Lk o ms multi sdof S (c_fs (fold_left step todo st0)) X (c_imap (fold_left step todo st0))).
+      { induction todo as [|d todo IH]; intros st0 P I0 L1 Hsub HP.
+        - simpl. split; auto. split; [|split; [apply same_rest_refl|auto]]. intros q i [Hq|[]]. intro Hn. eapply HP; eauto.
+        - cbn [fold_left].
+          destruct (names (c_fs st0) d) as [i|] eqn:En.
+          + assert (Est : step st0 d = with_fs st0 (upd_inode i (set_mtime t) (c_fs st0))) by (unfold step, upd_path; rewrite En; auto).
+            rewrite Est.
+            destruct (i_some _ _ _ I0 _ _ En) as (e & E1 & E2 & E3).
+            pose proof (Hg d) as Hgd. unfold Gp in Hgd. rewrite E1 in Hgd. destruct Hgd as [_ Hgd].
+            destruct (Hgd (Hsub d (or_introl eq_refl))) as [K1 K2].
+            assert (Hall : forall p ep, names (c_fs st0) p = Some i -> X p = Some ep -> d_mtime (x_d ep) = t).
+            { intros p ep Hp Hep. destruct K1 as [K1|(s0 & K1)].
+              - rewrite K1 in E3. destruct E3 as [_ Hu]. apply Hu in Hp. subst p. rewrite E1 in Hep. inversion Hep; subst.
+                apply (proj1 K2). auto.
+              - destruct (lk_grp _ _ _ _ _ _ _ _ L1 _ _ _ E1 K1) as (_ & B3 & _ & _ & B5).
+                destruct (B5 _ _ En Hp) as (e1 & A1 & A2). rewrite Hep in A1. inversion A1; subst e1.
+                destruct (lk_grp _ _ _ _ _ _ _ _ L1 _ _ _ Hep A2) as (_ & A3 & _).
+                rewrite A3, <- B3. apply (proj1 K2). auto. }
+            assert (I1 : Inv (upd_inode i (set_mtime t) (c_fs st0)) X).
+            { eapply (inv_upd o _ X X i (set_mtime t) I0); auto.
+              intros p ep Hp Hep. exists ep. split; auto. split; auto.
+              destruct (i_some _ _ _ I0 _ _ Hp) as (ep' & F1 & F2 & _). rewrite Hep in F1. inversion F1; subst ep'.
+              destruct F2 as (B1 & B2 & B3 & B4 & B5 & B6 & B7 & B8).
+              unfold dm. cbn [set_mtime d_mode d_uid d_gid d_mtime d_rdev d_target d_xattrs d_content].
+              repeat split; auto. intros _. symmetry. eapply Hall; eauto. }
+            assert (L2 : Lk o ms multi sdof S (upd_inode i (set_mtime t) (c_fs st0)) X (c_imap st0)).
+            { eapply Lk_names_ext; [|exact L1]. reflexivity. }
+            destruct (IH (with_fs st0 (upd_inode i (set_mtime t) (c_fs st0))) (fun q => P q \/ q = d)) as (J1 & J2 & J3 & J4); auto.
+            { intros q Hq. apply Hsub. right; auto. }
+            { intros q i' Hq. cbn [with_fs c_fs upd_inode names inodes]. intro Hn.
+              destruct (N.eqb i' i) eqn:Ei; [reflexivity|]. destruct Hq as [Hq| ->]; [eapply HP; eauto|].
+              rewrite En in Hn. inversion Hn; subst. rewrite N.eqb_refl in Ei. discriminate. }
+            split; auto. split; [|split; auto].
+            intros q i' Hq. apply J2. destruct Hq as [Hq|[<-|Hq]]; auto.
+          + assert (Est : step st0 d = st0) by (unfold step, upd_path; rewrite En; auto).
+            rewrite Est.
+            destruct (IH st0 (fun q => P q \/ q = d)) as (J1 & J2 & J3 & J4); auto.
+            { intros q Hq. apply Hsub. right; auto. }
+            { intros q i' [Hq| ->]; [eapply HP; eauto|]. congruence. }
+            split; auto. split; auto.
+            intros q i' Hq. apply J2. destruct Hq as [Hq|[<-|Hq]]; auto. }
+      destruct (Gen cr st (fun _ => False) I L0) as (J1 & J2 & J3 & J4); auto; [intros q i []|].
+      split; auto. split; [|split; auto].
+      2:{ split; auto. intros q i e t' Hn HX Hm Hu. rewrite Eu in Hu. inversion Hu; subst t'.
+          pose proof (Hg q) as Hgq. unfold Gp in Hgq. rewrite HX in Hgq. destruct Hgq as [G1 _].
+          apply (J2 q i); auto. }
+      intros q i e Hn HX Hk. destruct (i_some _ _ _ J1 _ _ Hn) as (e' & E1 & E2 & _). rewrite HX in E1. inversion E1; subst e'.
+      destruct (eff_known o e) eqn:Ee.
+      + apply E2; auto.
+      + unfold eff_known in Ee. rewrite Hk in Ee. cbn [andb] in Ee. apply negb_false_iff in Ee.
+        apply andb_true_iff in Ee as [Em _].
+        pose proof (Hg q) as Hgq. unfold Gp in Hgq. rewrite HX in Hgq. destruct Hgq as [G1 G2].
+        destruct (G2 (G1 Em)) as [_ K2]. rewrite (proj1 K2 t Eu). apply (J2 q i); auto.
+    - split; auto. split; [|split; [apply same_rest_refl|split; [intros q i e t' _ _ _ Hu; congruence|auto]]].
+      intros q i e Hn HX Hk. destruct (i_some _ _ _ I _ _ Hn) as (e' & E1 & E2 & _). rewrite HX in E1. inversion E1; subst e'.
+      apply E2. unfold eff_known, utset. rewrite Eu, Hk, andb_false_r. auto.
   Qed.
 
-  Definition mk_post (cs : list bytes) (s s' : cst) (r : list bytes + N) : Prop :=
-    stays dr s s' /\ s_links s' = s_links s /\
-    (forall created, r = inl created ->
-       (exists d, chain (s_fs s') dr cs d) /\ Forall (created_ok (s_fs s')) created).
+  (* ---- Copy ---- *)
+  Definition wf_fs (fs : fsys) : Prop :=
+    (forall p i, names fs p = Some i -> i < next fs) /\
+    (forall p a i, names fs (p ++ [a]) = Some i -> exists j, names fs p = Some j /\ is_dir (inodes fs j) = true) /\
+    (forall p q i, names fs p = Some i -> names fs q = Some i -> is_dir (inodes fs i) = true -> p = q) /\
+    (exists i, names fs [] = Some i /\ is_dir (inodes fs i) = true).
 
-  (* after the parent exists: Lstat, Mkdir, Chown, Utimes *)
-  Lemma mkdir_tail o cs x s s2 s' created r :
-    mk_post cs s s2 (inl created) -> is_dir (s_fs s) dr = true ->
-    Forall nm cs -> Forall nonul cs -> nm x -> nonul x ->
-    (r1 <~ sys (fun f => sys_lstat c f (render (dcs ++ cs ++ [x]))) ;;
-     if match r1 with RStat _ n1 => kind_is_dir n1 | _ => false end then ret created
-     else
-       r2 <~ sys (fun f => sys_mkdir c f (render (dcs ++ cs ++ [x])) (dir_mode o)) ;;
-       match r2 with
-       | ROk =>
-         chown_fixed c o (render (dcs ++ cs ++ [x])) ;;;
-         utimes_opt c (render (dcs ++ cs ++ [x])) (o_utime o) ;;;
-         ret (created ++ [render (dcs ++ cs ++ [x])])
-       | _ =>
-         r3 <~ sys (fun f => sys_lstat c f (render (dcs ++ cs ++ [x]))) ;;
-         if match r3 with RStat _ n3 => kind_is_dir n3 | _ => false end then ret created
-         else fail E_SYS
-       end) s2 = (s', r) ->
-    mk_post (cs ++ [x]) s s' r.
+  Lemma lk_init ms fs : Lk o ms multi sdof S fs (xview_of (view_of_fs fs)) [].
   Proof.
-    intros (S2 & L2 & P2) Hdr Hcs Hnul Hx Hxn H.
-    destruct (P2 created eq_refl) as ((dpar & Hcp) & Hcr).
-    assert (C2 : Ctx (s_fs s2)) by apply S2.
-    assert (T2 : Tgt (s_fs s2) cs dpar x) by (constructor; auto).
-    change (render (dcs ++ cs ++ [x])) with (tpath cs x) in H.
-    assert (Hdr2 : is_dir (s_fs s2) dr = true) by (eapply chain_end_dir; apply (cx_root _ _ _ _ _ C2)).
-    (* the directory is there: done *)
-    assert (Hdone : forall s3 i n, s_fs s3 = s_fs s2 -> s_links s3 = s_links s2 ->
-              blookup x (dents (s_fs s2) dpar) = Some i -> get (s_fs s2) i = Some n -> kind_is_dir n = true ->
-              mk_post (cs ++ [x]) s s3 (inl created)).
-    { intros s3 i n F3 L3 Hb Hg Hk. split; [eapply stays_trans; [exact Hdr|exact S2|apply stays_same; auto]|].
-      split; [congruence|]. intros cr Hc. inversion Hc; subst cr. rewrite F3. split; [|exact Hcr].
-      exists i. eapply chain_snoc; eauto. unfold is_dir, dir_of. rewrite Hg. unfold kind_is_dir in Hk.
-      destruct n as [[? ?|?|?|? ?] ?]; simpl in *; auto; discriminate. }
-    rewrite bind_run, sys_run in H. cbn [fst snd] in H. rewrite sys_lstat_fs in H.
-    pose proof (t_lstat c f0 dr dcs (s_fs s2) cs dpar x T2) as Hl1.
-    set (s3 := {| s_fs := s_fs s2; s_links := s_links s2; s_reads := s_reads s2 |}) in H.
-    assert (S3 : stays dr s s3) by (eapply stays_trans; [exact Hdr|exact S2|apply stays_same; auto]).
-    destruct (match snd (sys_lstat c (s_fs s2) (tpath cs x)) with RStat _ n1 => kind_is_dir n1 | _ => false end) eqn:Ek1.
-    { cbn [ret] in H. injection H as <- <-.
-      destruct (snd (sys_lstat c (s_fs s2) (tpath cs x))) as [|?|i n|?|?|?]; try discriminate.
-      destruct Hl1 as [Hb Hg]. eapply Hdone; eauto. }
-    clear Hl1 Ek1.
-    rewrite bind_run, sys_run in H. cbn [fst snd] in H. change (s_fs s3) with (s_fs s2) in H.
-    destruct (sys_mkdir c (s_fs s2) (tpath cs x) (dir_mode o)) as [f4 r4] eqn:E4. cbn [fst snd] in H.
-    pose proof (g_mkdir c f0 dr dcs _ cs dpar x _ f4 r4 T2 E4) as G4.
-    pose proof (k_mkdir c f0 dr dcs _ cs dpar x _ f4 r4 T2 E4) as K4.
-    destruct (t_mkdir c f0 dr dcs _ cs dpar x _ f4 r4 T2 E4) as (C4 & A4 & P4).
-    fold (mk s3 f4) in H.
-    assert (S4 : stays dpar s3 (mk s3 f4)) by (apply stays_grows; auto).
-    assert (S4r : stays dr s (mk s3 f4)).
-    { eapply stays_trans; [exact Hdr|exact S3|]. eapply stays_below; [|exact S4]. exact Hcp. }
-    destruct P4 as [[e ->]|[-> [Hc Hi]]].
-    - (* Mkdir failed: look again *)
-      rewrite bind_run, sys_run in H. cbn [fst snd] in H. rewrite sys_lstat_fs in H.
-      assert (T4 : Tgt f4 cs dpar x) by (eapply (tgt_stays c f0 dr dcs s3 (mk s3 f4)); eauto).
-      pose proof (t_lstat c f0 dr dcs f4 cs dpar x T4) as Hl3. cbn [s_fs mk] in H.
-      set (s5 := {| s_fs := f4; s_links := _; s_reads := _ |}) in H.
-      destruct (match snd (sys_lstat c f4 (tpath cs x)) with RStat _ n3 => kind_is_dir n3 | _ => false end) eqn:Ek3.
-      + cbn [ret] in H. injection H as <- <-.
-        destruct (snd (sys_lstat c f4 (tpath cs x))) as [|?|i n|?|?|?]; try discriminate.
-        destruct Hl3 as [Hb Hg]. split; [eapply stays_trans; [exact Hdr|exact S4r|apply stays_same; auto; apply S4r]|].
-        split; [simpl; congruence|]. intros cr Hc. inversion Hc; subst cr. cbn [s_fs]. split.
-        * exists i. assert (Hi3 : is_dir f4 i = true).
-          { unfold is_dir, dir_of. rewrite Hg. unfold kind_is_dir in Ek3.
-            destruct n as [[? ?|?|?|? ?] ?]; simpl in *; auto; discriminate. }
-          eapply chain_snoc; [apply T4|exact Hb|exact Hi3].
-        * eapply Forall_impl; [|exact Hcr]. intros p. apply created_ok_keeps. eapply stays_keeps. exact S4.
-      + unfold fail in H. injection H as <- <-.
-        split; [eapply stays_trans; [exact Hdr|exact S4r|apply stays_same; auto; apply S4r]|]. split; [simpl; congruence|discriminate].
-    - (* created: Chown, Utimes *)
-      set (nw := f_next (s_fs s3)) in *.
-      assert (T4 : Tgt (s_fs (mk s3 f4)) cs dpar x) by (eapply (tgt_stays c f0 dr dcs s3 (mk s3 f4)); eauto).
-      assert (N4 : names_ss (s_fs (mk s3 f4)) dpar x nw) by (split; [apply Hc|right; apply Hc]).
-      rewrite bind_run in H.
-      destruct (chown_fixed c o (tpath cs x) (mk s3 f4)) as [s5 [[]|e]] eqn:E5.
-      2:{ injection H as <- <-. pose proof (chown_fixed_spec _ _ _ cs dpar x nw o T4 N4 E5) as M5.
-          split; [eapply stays_trans; [exact Hdr|exact S4r|apply mstep_stays; auto]|]. split; [|discriminate].
-          destruct M5 as [_ E]. rewrite E. simpl. congruence. }
-      pose proof (chown_fixed_spec _ _ _ cs dpar x nw o T4 N4 E5) as M5.
-      rewrite bind_run in H.
-      assert (T5 := mstep_tgt c f0 dr dcs _ _ _ _ _ T4 M5). assert (N5 := mstep_names c f0 dr dcs _ _ _ _ _ N4 M5).
-      destruct (utimes_opt c (tpath cs x) (o_utime o) s5) as [s6 [[]|e]] eqn:E6.
-      2:{ injection H as <- <-. pose proof (utimes_opt_spec _ _ _ cs dpar x nw _ T5 N5 E6) as M6.
-          split; [eapply stays_trans; [exact Hdr|exact S4r|apply mstep_stays; eapply mstep_trans; eauto]|]. split; [|discriminate].
-          destruct M5 as [_ E], M6 as [_ E']. rewrite E', E. simpl. congruence. }
-      pose proof (utimes_opt_spec _ _ _ cs dpar x nw _ T5 N5 E6) as M6.
-      cbn [ret] in H. injection H as <- <-.
-      assert (M46 : mstep (mk s3 f4) s6) by (eapply mstep_trans; eauto).
-      assert (S46 : stays dpar (mk s3 f4) s6) by (apply mstep_stays; auto).
-      split; [eapply stays_trans; [exact Hdr|exact S4r|apply mstep_stays; auto]|].
-      split; [destruct M46 as [_ E]; rewrite E; simpl; congruence|].
-      intros cr Hcr2. inversion Hcr2; subst cr.
-      assert (T6 := mstep_tgt c f0 dr dcs _ _ _ _ _ T4 M46). assert (N6 := mstep_names c f0 dr dcs _ _ _ _ _ N4 M46).
-      assert (Hi6 : is_dir (s_fs s6) nw = true).
-      { destruct M46 as [(_ & _ & _ & I6 & _) _]. rewrite I6. exact Hi. }
-      split.
-      + exists nw. eapply chain_snoc; [apply T6|apply N6|exact Hi6].
-      + apply Forall_app. split.
-        * eapply Forall_impl; [|exact Hcr]. intros p Hp.
-          eapply created_ok_keeps; [eapply stays_keeps; exact S46|].
-          eapply created_ok_keeps; [eapply stays_keeps; exact S4|exact Hp].
-        * constructor; [|constructor]. exists cs, x. do 5 (split; [auto|]).
-          intros d' Hd'. rewrite (chain_fun _ _ _ _ Hd' _ (tg_chain _ _ _ _ _ _ _ _ T6)).
-          unfold bind_new. destruct N6 as [Hb6 _]. rewrite Hb6. apply Hc.
+    assert (Hk : forall p e s, xview_of (view_of_fs fs) p = Some e -> x_key e = KSrc s -> False).
+    { intros p e s H1 H2. unfold xview_of, view_of_fs in H1. destruct (names fs p); [|discriminate].
+      inversion H1; subst. discriminate. }
+    split.
+    - constructor.
+    - intros s l i H. discriminate.
+    - intros s l i p H. discriminate.
+    - intros p e s H1 H2. exfalso. eapply Hk; eauto.
+    - intros _ p e s H1 H2. exfalso. eapply Hk; eauto.
   Qed.
 
-  Lemma mkdir_slow_spec recur o cs x s s' r :
-    (forall s1 s2 r2, Ctx (s_fs s1) -> link_free (s_fs s1) dr cs = true ->
-        recur (render (dcs ++ cs)) s1 = (s2, r2) -> mk_post cs s1 s2 r2) ->
-    Ctx (s_fs s) -> Forall nm cs -> Forall nonul cs -> nm x -> nonul x -> link_free (s_fs s) dr (cs ++ [x]) = true ->
-    mkdir_slow recur c o (render (dcs ++ cs ++ [x])) s = (s', r) -> mk_post (cs ++ [x]) s s' r.
+  Lemma inv_init fs : wf_fs fs -> Inv fs (xview_of (view_of_fs fs)) /\ x_isdir (xview_of (view_of_fs fs) []) = true /\
+                                  G (xview_of (view_of_fs fs)) [].
   Proof.
-    intros Hrec C Hcs Hnul Hx Hxn Hlf H. unfold mkdir_slow in H.
-    assert (Hdr : is_dir (s_fs s) dr = true) by (eapply chain_end_dir; apply (cx_root _ _ _ _ _ C)).
-    assert (Hall : Forall nm ((dcs ++ cs) ++ [x])).
-    { apply Forall_app; split; [apply Forall_app; split; [apply (cx_dcs _ _ _ _ _ C)|auto]|constructor; auto]. }
-    rewrite bind_run in H. rewrite app_assoc in H. rewrite mk_parent_render in H by auto.
-    (* the parent *)
-    assert (Hpar : forall s2 (r2 : list bytes + N),
-              (match dcs ++ cs with [] => None | _ => Some (render (dcs ++ cs)) end = None -> s2 = s /\ r2 = inl [] /\ cs = []) ->
-              (match dcs ++ cs with [] => None | _ => Some (render (dcs ++ cs)) end <> None -> recur (render (dcs ++ cs)) s = (s2, r2)) ->
-              mk_post cs s s2 r2).
-    { intros s2 r2 H1 H2. destruct (dcs ++ cs) as [|y0 l0] eqn:El.
-      - destruct (H1 eq_refl) as (-> & -> & ->). split; [apply stays_refl; auto|]. split; auto.
-        intros cr Hc. inversion Hc; subst. split; [|constructor]. exists dr. constructor; auto.
-      - rewrite <- El in *. apply Hrec; auto; [eapply link_free_removelast; eauto|apply H2; discriminate]. }
-    destruct ((match dcs ++ cs with [] => None | _ => Some (render (dcs ++ cs)) end)) as [par|] eqn:Epar.
-    - assert (Epp : par = render (dcs ++ cs)) by (destruct (dcs ++ cs); inversion Epar; reflexivity). subst par.
-      destruct (recur (render (dcs ++ cs)) s) as [s2 [created|e]] eqn:E2.
-      + assert (P2 : mk_post cs s s2 (inl created)) by (apply Hpar; [discriminate|auto]).
-        eapply (mkdir_tail o cs x s s2 s' created r); eauto. rewrite <- app_assoc in H. exact H.
-      + assert (P2 : mk_post cs s s2 (inr e)) by (apply Hpar; [discriminate|auto]).
-        injection H as <- <-. destruct P2 as (S2 & L2 & _). split; auto. split; auto. discriminate.
-    - cbn [ret] in H.
-      assert (P2 : mk_post cs s s (inl [])) by (apply Hpar; [intros _; repeat split; auto; destruct (dcs ++ cs) eqn:E; [apply app_eq_nil in E; apply E|discriminate]|congruence]).
-      eapply (mkdir_tail o cs x s s s' [] r); eauto. rewrite <- app_assoc in H. exact H.
+    intros (A & B & C & (r & Hr & Hrd)). split; [|split].
+    - split; auto.
+      + intros p H. unfold xview_of, view_of_fs. rewrite H. auto.
+      + intros p i H. unfold xview_of, view_of_fs. rewrite H. eexists. split; [reflexivity|].
+        split; [|reflexivity]. unfold dm. cbn [x_d]. repeat split; auto.
+    - unfold x_isdir, xview_of, view_of_fs. rewrite Hr. auto.
+    - intro q. unfold Gp, xview_of, view_of_fs. destruct (names fs q); auto. cbn [x_mk]. split; [discriminate|intros []].
   Qed.
 
-  Lemma mkdir_all_spec : forall k o cs s s' r,
-    Ctx (s_fs s) -> Forall nm cs -> Forall nonul cs -> link_free (s_fs s) dr cs = true ->
-    mkdir_all k c o (render (dcs ++ cs)) s = (s', r) -> mk_post cs s s' r.
+  Lemma resolve_wild_err src e : resolve_wild sroot src = inr e -> e = EScope \/ e = EOther.
   Proof.
-    induction k as [|k IH]; intros o cs s s' r C Hcs Hnul Hlf H.
-    { cbn [mkdir_all] in H. unfold fail in H. injection H as <- <-.
-      split; [apply stays_refl; auto|split; auto; discriminate]. }
-    cbn [mkdir_all] in H. rewrite bind_run, sys_run in H. cbn [fst snd] in H. rewrite sys_stat_fs in H.
-    assert (Hdr : is_dir (s_fs s) dr = true) by (eapply chain_end_dir; apply (cx_root _ _ _ _ _ C)).
-    set (s1 := {| s_fs := s_fs s; s_links := s_links s; s_reads := s_reads s |}) in H.
-    assert (S1 : stays dr s s1) by (apply stays_same; auto).
-    assert (Hslow : forall r0, snd (sys_stat c (s_fs s) (render (dcs ++ cs))) = r0 -> (forall i n, r0 <> RStat i n) ->
-              mkdir_slow (mkdir_all k c o) c o (render (dcs ++ cs)) s1 = (s', r) -> mk_post cs s s' r).
-    { intros r0 Est Hno H1.
-      assert (Hne : cs <> []).
-      { intros ->. rewrite app_nil_r in Est. destruct (stat_root (s_fs s) C) as (n' & E' & _). rewrite E' in Est.
-        subst r0. eapply Hno; reflexivity. }
-      destruct (exists_last Hne) as (cs' & x & ->).
-      apply Forall_app in Hcs. destruct Hcs as [Hcs' Hx]. inversion Hx as [|? ? Hx1 _]; subst.
-      apply Forall_app in Hnul. destruct Hnul as [Hnul' Hxn]. inversion Hxn as [|? ? Hxn1 _]; subst.
-      assert (P : mk_post (cs' ++ [x]) s1 s' r).
-      { apply (mkdir_slow_spec (mkdir_all k c o) o cs' x s1 s' r); auto.
-        intros sa sb rb Ca La Ha. apply (IH o cs' sa sb rb); auto. }
-      destruct P as (Sa & La & Pa). split; [eapply stays_trans; [exact Hdr|exact S1|exact Sa]|]. split; [exact La|exact Pa]. }
-    destruct (snd (sys_stat c (s_fs s) (render (dcs ++ cs)))) as [|e0|i n|b0|l0|i0] eqn:Est.
-    3:{ destruct (kind_is_dir n) eqn:Ek.
-        - cbn [ret] in H. injection H as <- <-. split; auto. split; auto. intros created Hc. inversion Hc; subst.
-          split; [|constructor]. exists i. eapply stat_dir_chain; eauto.
-        - unfold fail in H. injection H as <- <-. split; auto. split; auto. discriminate. }
-    all: eapply Hslow; eauto; intros; discriminate.
+    unfold resolve_wild.
+    destruct (split_wild _) as [p1 p2]. destruct (existsb has_unsupported _); [intro H; inversion H; auto|].
+    destruct p2; [discriminate|]. destruct (s_resolve sroot _) eqn:E; [discriminate|].
+    intro H; inversion H; subst. eapply s_resolve_err; eauto.
+  Qed.
+
+  Definition the_ms : option (list bitcmd) :=
+    match (match o_modestr o with [] => Some None | s => option_map Some (parse_mode s) end) with
+    | Some ms => ms | None => None end.
+
+  Definition top_ok (res : xres + xerr) (out : R) : Prop :=
+    match res with
+    | inl r => exists st', out = (st', None) /\ Inv (c_fs st') (xr_view r) /\ strict (c_fs st') (xr_view r) /\
+                           rev (c_notifs st') = xr_notifs r /\
+                           mk_timed (c_fs st') (xr_view r) /\ (exists cr, G (xr_view r) cr) /\
+                           x_isdir (xr_view r []) = true /\
+                           Lk o the_ms multi sdof S (c_fs st') (xr_view r) (c_imap st')
+    | inr xe => exists st' e, out = (st', Some e) /\ err_cls e = xerr_cls xe /\
+        match xe with
+        | XConflict _ p bef => exists X', Inv (c_fs st') X' /\ strict (c_fs st') X' /\ X' p = bef /\ bef <> None
+        | _ => True
+        end
+    end.
+
+  Theorem copy_top_ok fs src dst : wf_fs fs -> (S -> (forall i, multi i = false) \/ o_wild o = false) ->
+    top_ok (overlay_all o sroot (view_of_fs fs) src dst) (copy_top o selected sroot fs src dst).
+  Proof.
+    intros Hfs Hmode. destruct (inv_init fs Hfs) as (I0 & Hroot0 & G0).
+    pose proof (lk_init the_ms fs) as L00.
+    unfold copy_top, overlay_all. fold (ensure_arg dst).
+    set (X0 := xview_of (view_of_fs fs)) in *.
+    set (st0 := {| c_fs := fs; c_imap := []; c_notifs := []; c_split := false |}).
+    (* ensureDstPath *)
+    match goal with |- top_ok match ?sp with _ => _ end _ => set (SP := sp) end.
+    match goal with |- top_ok _ (match ?en with _ => _ end) => set (EN := en) end.
+    assert (Ens : match SP with
+                  | inl (X1, _) => exists st1 cr1,
+                      EN = (st1, None, cr1) /\ Inv (c_fs st1) X1 /\ x_isdir (X1 []) = true /\ G X1 cr1 /\ same_rest st1 st0 /\
+                      Lk o the_ms multi sdof S (c_fs st1) X1 (c_imap st1)
+                  | inr xe => exists st1 e,
+                      EN = (st1, Some e, []) /\ err_cls e = xerr_cls xe /\ same_rest st1 st0 /\
+                      match xe with XConflict _ _ _ => False | _ => True end
+                  end).
+    { unfold SP, EN. clear SP EN.
+destruct (ensure_arg dst) as [|c0 e0] eqn:Een.
+      - exists st0, []. spl; auto; apply same_rest_refl.
+      - rewrite <- Een. rewrite (root_path_spec o fs X0 (ensure_arg dst) I0).
+        destruct (root_path fs (ensure_arg dst)) as [ep|e] eqn:ERP; cbn [map_res].
+        + pose proof (mkdir_all_spec o the_ms multi sdof S ep st0 X0 I0 L00 Hroot0) as HM.
+          destruct (make_dirs o [] ep X0) as [X1|xe] eqn:EMD.
+          * destruct HM as (st1 & cr1 & E1 & I1 & R1 & N1 & O1 & L1). exists st1, cr1.
+            split; auto. split; auto. split; [eapply make_dirs_mono; eauto|]. split; [|split; auto].
+            apply (G_mk X0 X1 [] cr1 G0 N1 O1).
+          * destruct HM as (st1 & e & E1 & E2 & E3 & E4 & _). exists st1, e. subst xe.
+            split; auto. split; [symmetry; apply xerr_of_cls; auto|]. split; auto.
+            destruct E3 as [-> | ->]; exact Logic.I.
+        + pose proof (root_path_err _ _ _ ERP) as He. exists st0, e.
+          split; auto. split; [symmetry; apply xerr_of_cls; auto|]. split; [apply same_rest_refl|].
+          destruct He as [-> | ->]; exact Logic.I. }
+    clearbody SP EN. destruct SP as [[X1 eps]|xe].
+    2:{ destruct Ens as (st1 & e & E1 & C1 & _ & K1). rewrite E1. unfold top_ok.
+        exists st1, e. split; auto. split; auto. destruct xe; auto. contradiction. }
+    destruct Ens as (st1 & cr1 & E1 & I1 & Hroot1 & G1 & (M1 & N1 & _) & L1). rewrite E1.
+    (* ModeStr *)
+    destruct (match o_modestr o with [] => Some None | _ :: _ => option_map Some (parse_mode (o_modestr o)) end) as [ms|] eqn:Ems.
+    2:{ assert (Ems' : match o_modestr o with [] => Some None | s :: l => option_map Some (parse_mode (s :: l)) end = None).
+        { destruct (o_modestr o); auto. }
+        rewrite Ems'. unfold top_ok. eexists; eexists. split; [reflexivity|]. split; auto. }
+    assert (Ems' : match o_modestr o with [] => Some None | s :: l => option_map Some (parse_mode (s :: l)) end = Some ms).
+    { destruct (o_modestr o); auto. }
+    rewrite Ems'.
+    (* wildcards *)
+    destruct (if o_wild o then resolve_wild sroot src else inl [src]) as [srcs|e] eqn:Ew.
+    2:{ assert (He : e = EScope \/ e = EOther).
+        { destruct (o_wild o); [eapply resolve_wild_err; eauto|discriminate]. }
+        unfold top_ok. destruct He as [-> | ->]; eexists; eexists; (split; [reflexivity|]); (split; [reflexivity|exact Logic.I]). }
+    destruct srcs as [|s0 srcs].
+    { unfold top_ok. eexists; eexists. split; [reflexivity|]. split; [reflexivity|]. auto. }
+    assert (Hms : the_ms = ms) by (unfold the_ms; rewrite Ems'; auto).
+    rewrite Hms in *.
+    assert (Hmode2 : S -> (forall i, multi i = false) \/ (length (s0 :: srcs) <= 1)%nat).
+    { intro HS. destruct (Hmode HS) as [Hn|Hw]; auto. right. rewrite Hw in Ew. inversion Ew; subst. simpl. auto. }
+    assert (Hpc1 : S -> PCall (c_imap st1)) by (intros _; rewrite M1; apply PCall_nil).
+    pose proof (copy_srcs_spec ms dst (s0 :: srcs) st1 X1 cr1 Hmode2 I1 L1 Hpc1 Hroot1 G1) as HS.
+    destruct (overlay_srcs o sroot ms dst (s0 :: srcs) X1) as [r|xe].
+    - destruct HS as (st2 & cr2 & E2 & I2 & Hr2 & G2 & N2 & L2). rewrite E2.
+      destruct (fix_created_ok ms (cr1 ++ cr2) st2 (xr_view r) I2 L2 G2) as (J1 & J2 & (J3 & J4 & J5) & J6 & J7).
+      unfold top_ok. rewrite Hms. cbn [xr_view xr_notifs]. eexists. split; [reflexivity|]. split; auto. split; auto.
+      split; [rewrite J4, N2, N1; unfold st0; cbn [c_notifs]; rewrite app_nil_r, rev_involutive; reflexivity|].
+      split; [auto|]. split; [eauto|]. split; auto.
+    - destruct HS as (st2 & e & cr2 & E2 & C2 & K2). rewrite E2.
+      unfold top_ok. eexists; eexists. split; [reflexivity|]. split; auto.
+      destruct xe as [cls p bef| |]; auto.
+      destruct K2 as (X' & K1 & K3 & K4 & K5 & K6).
+      destruct (fix_created_ok ms (cr1 ++ cr2) st2 X' K1 K6 K5) as (J1 & J2 & (J3 & J4 & J5) & _).
+      exists X'. auto.
   Qed.
 End Top.
